@@ -164,12 +164,12 @@ def check_c07(pid, tier, seed, replay=None):
     if quick: files_hist = files + ['F']
     else: files_hist = files
     # TLC-generated histories (spec -> code)
-    tl = tlagen.vf_histories(seed, n=(60 if quick else 1500), depth=(9 if quick else 12), mode='seek')
+    tl = tlagen.vf_histories(seed, n=(60 if quick else 4000), depth=(9 if quick else 12), mode='seek')
     for i,hst in enumerate(tl['hists']):
         f = files_hist[i % len(files_hist)]
         scs.append(fam_from_tla(hst, f, f'tla{i}-{f}'))
     # random histories
-    for i in range(24 if quick else 600):
+    for i in range(24 if quick else 2400):
         f = files_hist[i % len(files_hist)]
         scs.append(fam_history(rng, f, 14 if quick else 30, f'hist{i}-{f}'))
     for f in files:
@@ -221,7 +221,7 @@ def check_c09(pid, tier, seed, replay=None):
     # generated chained files: k links drawn from the catalogue with random layouts
     short = [2,3,4,10,16,6,15]; mid = [0,1,5,7,9,11,12,13]
     extra_files = {}
-    nfiles = 28 if quick else 600
+    nfiles = 28 if quick else 2400
     import checks.vfcommon as C
     for i in range(nfiles):
         k = rng.choice([1,2,2,3,3,4,5,6]) if i % 17 else 40
@@ -335,7 +335,7 @@ def check_c19(pid, tier, seed, replay=None):
     pairs = [('B','T'),('T','B'),('C','I'),('K','E'),('T','T')] + ([] if quick else [('A','K'),('S','B'),('N','C'),('E','E'),('H','T'),('R','T')])
     for (a,b) in pairs:
         scs.append(fam_crosslap(rng, a, b, f'xlap-{a}-{b}', 5 if quick else 40))
-    tl = tlagen.vf_histories(seed+19, n=(30 if quick else 800), depth=(8 if quick else 11), mode='seek')
+    tl = tlagen.vf_histories(seed+19, n=(30 if quick else 2500), depth=(8 if quick else 11), mode='seek')
     for i,hst in enumerate(tl['hists']):
         if not any(x[0] in ('psl','pspl','rsl','tsl','tspl') for x in hst): continue
         f = files[i % len(files)]
@@ -390,7 +390,7 @@ def check_c20(pid, tier, seed, replay=None):
         for tg in (['fresh','midpacket','linkend','eof','badseek','rawend'] if not quick else rng.sample(['fresh','midpacket','linkend','eof','badseek','rawend'],3)):
             for rep in range(1 if quick else 6):
                 scs.append(fam_halfrate(rng, f, f'hr-{tg}-{f}-{rep}', 10 if quick else 25, tg))
-    tl = tlagen.vf_histories(seed+20, n=(30 if quick else 800), depth=(8 if quick else 11), mode='seek')
+    tl = tlagen.vf_histories(seed+20, n=(30 if quick else 2500), depth=(8 if quick else 11), mode='seek')
     for i,hst in enumerate(tl['hists']):
         if not any(x[0]=='hr' for x in hst): continue
         f = files[i % len(files)]
@@ -548,7 +548,7 @@ def check_c03(pid, tier, seed, replay=None):
     scs = []
     base = ['B','C','D','E','I','N','K','T','H'] + ([] if quick else ['A','J','L','P','Q','R','S','M'])
     npg = {'B':45,'C':9,'D':9,'E':40,'I':9,'N':12,'K':60,'T':12,'H':30,'A':10,'J':40,'L':25,'P':40,'Q':20,'R':30,'S':60,'M':60}
-    nfiles = 320 if quick else 6000
+    nfiles = 320 if quick else 24000
     for i in range(nfiles):
         b = base[i % len(base)]
         key = f'Z{i}'
@@ -614,7 +614,7 @@ def check_c17(pid, tier, seed, replay=None):
             ls += ['rig 0 100 2 1 0', 'rig 0 7 1 0 0', 'rig 0 4096 2 0 1', 'rig 0 64 1 1 0', 'rfn 0 4096 -1', 'ri 0 4096 2 1 0', 'clear 0']
             scs.append(Scenario(f'pack-real-{mode}-{f}', [f], ls, 'pack-real', budget=60))
         # (b) injected TLC-chosen values through ov_read_filter: all formats, value list rotated so every value meets every channel slot
-        nrot = 3 if quick else 12
+        nrot = 3 if quick else 40
         for r_ in range(nrot):
             vv = vals[:]; rng.shuffle(vv)
             chunks = [vv[i:i+64] for i in range(0, len(vv), 64)]
